@@ -107,6 +107,10 @@ pin_project! {
         #[pin]
         count_stream: C,
 
+        // Whether `count_stream` has ended. A stream must not be polled again after
+        // it has returned `None`.
+        count_stream_ended: bool,
+
         // The buffered vector that is updated with the main stream's items.
         // It's used to provide missing items, e.g. when the count decreases or
         // when values must be filled.
@@ -175,6 +179,7 @@ where
             buffered_vector: initial_values,
             count: None,
             ready_values: Default::default(),
+            count_stream_ended: false,
         }
     }
 
@@ -197,6 +202,7 @@ where
             buffered_vector,
             count: Some(initial_count),
             ready_values: Default::default(),
+            count_stream_ended: false,
         };
 
         (initial_values, stream)
@@ -254,14 +260,21 @@ where
             }
 
             // Poll a new count value from `count_stream` before polling `inner_stream`.
-            while let Poll::Ready(Some(next_count)) = self.count_stream.as_mut().poll_next(cx) {
-                // Update the count value and emit `VectorDiff`s accordingly.
-                if let Some(diffs) = self.update_count(next_count) {
-                    return Poll::Ready(S::Item::extend_skip_buf(diffs, self.ready_values));
-                }
+            // (Once `count_stream` has ended, it is not polled anymore.)
+            while !*self.count_stream_ended {
+                match self.count_stream.as_mut().poll_next(cx) {
+                    Poll::Ready(Some(next_count)) => {
+                        // Update the count value and emit `VectorDiff`s accordingly.
+                        if let Some(diffs) = self.update_count(next_count) {
+                            return Poll::Ready(S::Item::extend_skip_buf(diffs, self.ready_values));
+                        }
 
-                // If `update_count` returned `None`, poll the count stream
-                // again.
+                        // If `update_count` returned `None`, poll the count stream
+                        // again.
+                    }
+                    Poll::Ready(None) => *self.count_stream_ended = true,
+                    Poll::Pending => break,
+                }
             }
 
             // Poll `VectorDiff`s from the `inner_stream`.
